@@ -9,54 +9,162 @@ from .core import Driver, flist, frac
 LEVEL_TEXT = ("Proof: ge/le empirical probabilities equal #{x_i>=v}/n and #{x_i<=v}/n for every non-empty finite sample and "
               "every query (induction over lists, kernel-checked), with the sum, bound and monotonicity corollaries; tied to the "
               "code by an exhaustive correspondence over all multisets of size <=7 over 6 letters x 13 queries plus random "
-              "large samples with heavy ties.")
+              "large samples with heavy ties, and by dtype classes (every integer / float sample dtype x every way of passing the "
+              "query; 64-bit integers beyond 2**53 compared as exact integers).")
 LEVEL_NOTE = ("numpy.sort / numpy.searchsorted are modelled by their specification (sorted permutation, insertion point); the "
-              "float returned by the library is compared to Python's k/n exactly.")
+              "float returned by the library is compared to Python's k/n exactly. numpy's type promotion (int64 x uint64 -> "
+              "float64, weak Python scalars rounded to a float32 sample's dtype) is not modelled: the model compares exact "
+              "rationals; two input sub-classes where promotion makes the unchanged library miss the property are listed in "
+              "known findings D35/D36 (reported with their signature).")
 DESIGN_REF = "DESIGN.md §4 C09"
 
 THEOREMS = ["Ecdf.ge_ecdf_eq", "Ecdf.le_ecdf_eq", "Ecdf.ecdf_sum", "Ecdf.ge_anti", "Ecdf.le_mono",
             "Ecdf.empty_none", "Ecdf.quantiles_eq", "Ecdf.cnt_le_length", "Ecdf.binned_ecdf_eq",
-            "Ecdf.quantiles_sum_ge", "Ecdf.above_all", "Ecdf.below_all", "Ecdf.perm_invariant"]
+            "Ecdf.quantiles_sum_ge", "Ecdf.above_all", "Ecdf.below_all", "Ecdf.perm_invariant", "Ecdf.int_data_exact"]
 TRUSTED = ["Lean 4.33 kernel", "axioms: propext, Classical.choice, Quot.sound at most",
            "numpy.sort returns the sorted permutation and numpy.searchsorted the left/right insertion point "
            "(modelled as List.mergeSort / takeWhile-length)",
            "harness/c09.py generators and comparison; driver parsing (Proto.lean)"]
 RULE = ("exhaustive: every multiset of size 1..7 over two 6-letter alphabets (1..6 and -3..2) x 13 query points (on, between, below, "
-        "above); random: large samples with heavy ties, int and float dtypes, list and ndarray inputs; a case is "
-        "non-trivial when the sample has a tie or the query equals a sample value; distinct by (sample, query)")
+        "above); random: large samples with heavy ties, int and float dtypes, list and ndarray inputs; dtype classes: every "
+        "sample dtype uint8..uint64, int8..int64, float16/32/64 x query kinds (Python int / float, numpy scalar of every integer "
+        "and float dtype that holds the value) over small alphabets, the dtype's extreme values, and 64-bit integers beyond "
+        "+-2**53 that differ by less than the float64 spacing (compared as exact Python integers); binned_ecdf over the same "
+        "dtypes; a case is non-trivial when the sample has a tie or the query equals a sample value; distinct by (sample, query)")
+
+# Sub-classes of the dtype generators on which the UNCHANGED library violates the property: known findings D35 / D36 of
+# /verif/known_findings.json (signature "ecdf:<name>"). Cases of a listed sub-class ARE evaluated: a wrong answer or an
+# exception there is reported with that signature (-> KNOWN-FINDING line), a right answer is compared with the model as
+# usual. AWAITING_DECISION stays empty unless a new candidate is parked.
+AWAITING_DECISION = []
+KNOWN_FINDING_CLASSES = [
+    # integer sample and query whose numpy common dtype is a float (int64 x uint64, uint64 x Python int, integer x float
+    # query) while a sample value or the query is not exactly representable in it (|t| > 2**53): numpy.searchsorted
+    # compares the rounded values
+    "integer-comparison-promoted-to-lossy-float",
+    # float16/float32 sample with a Python int/float query that is not representable in the sample's dtype and lies
+    # within half a spacing outside the sample's extremes: the two short-circuit comparisons round the (weak) Python
+    # scalar to the sample dtype, numpy.searchsorted compares in float64 -> index -1 / n
+    "narrow-float-sample-weak-python-query",
+]
 
 
-def _impl(x, v, as_list):
+def _exact(t):
+    """exact value of a sample element / query: Python int for every integer type, Fraction of the float otherwise"""
+    if isinstance(t, (bool, numpy.bool_)):
+        return int(t)
+    if isinstance(t, (int, numpy.integer)):
+        return int(t)
+    if isinstance(t, Fraction):
+        return t
+    return Fraction(float(t))
+
+
+def _qdtype(v):
+    """dtype numpy gives the query when it has to make an array of it (numpy.searchsorted does)"""
+    if isinstance(v, numpy.generic):
+        return v.dtype
+    return numpy.asarray(v).dtype
+
+
+def _representable(dt, value):
+    try:
+        with numpy.errstate(all="ignore"):
+            r = dt.type(int(value) if isinstance(value, int) or value.denominator == 1 else float(value))
+        return _exact(r) == value
+    except (OverflowError, ValueError):
+        return False
+
+
+def awaiting_class(arr, v):
+    """name of the AWAITING_DECISION sub-class the pair (sample array, query) belongs to, or None"""
+    qd = _qdtype(v)
+    if qd.kind not in "iuf" or arr.dtype.kind not in "iuf":
+        return None
+    weak = not isinstance(v, numpy.generic)
+    if arr.dtype.kind == "f" and arr.dtype.itemsize < 8 and weak and not _representable(arr.dtype, Fraction(_exact(v))):
+        # only where the rounding of the weak scalar changes one of the two short-circuit decisions
+        with numpy.errstate(all="ignore"):
+            rv = Fraction(float(arr.dtype.type(v))) if numpy.isfinite(arr.dtype.type(v)) else None
+        fv, lo, hi = Fraction(_exact(v)), Fraction(float(arr.min())), Fraction(float(arr.max()))
+        if rv is None or (fv > hi) != (rv > hi) or (fv < lo) != (rv < lo):
+            return "narrow-float-sample-weak-python-query"
+    ct = numpy.result_type(arr.dtype, qd)
+    if ct.kind == "f" and (arr.dtype.kind in "iu" or qd.kind in "iu"):
+        vals = set(_exact(t) for t in arr.tolist()) if arr.dtype.kind in "iu" else set()
+        if qd.kind in "iu" or arr.dtype.kind in "iu":
+            vals.add(_exact(v))
+        if not all(_representable(ct, Fraction(t)) for t in vals):
+            return "integer-comparison-promoted-to-lossy-float"
+    return None
+
+
+def _impl(arg, v):
     from csep.utils import stats
-    arg = list(x) if as_list else numpy.asarray(x)
     ge = stats.greater_equal_ecdf(arg, v)
     le = stats.less_equal_ecdf(arg, v)
     q = stats.get_quantiles(arg, v)
-    return ge, le, q
+    cdf = stats.ecdf(arg)            # the precomputed-ecdf path used by binned_ecdf
+    gec = stats.greater_equal_ecdf(arg, v, cdf=cdf)
+    lec = stats.less_equal_ecdf(arg, v, cdf=cdf)
+    return ge, le, q, gec, lec
+
+
+def _vtype(v):
+    if isinstance(v, numpy.generic):
+        return v.dtype.name
+    return "int" if isinstance(v, int) else "float"
+
+
+def _mk_query(vtype, text):
+    val = Fraction(text)
+    if vtype == "int":
+        return int(val)
+    if vtype == "float":
+        return float(val)
+    dt = numpy.dtype(vtype)
+    return dt.type(int(val)) if dt.kind in "iu" else dt.type(float(val))
 
 
 def _check_case(run, drv, pending, x, v, as_list, tag):
+    """x: list of Python numbers or a numpy array (any integer / float dtype); v: Python or numpy scalar"""
+    arr = x if isinstance(x, numpy.ndarray) else None
     n = len(x)
-    case = dict(x=[repr(t) for t in x] if n <= 12 else f"<{n} values>", v=repr(v), as_list=as_list, tag=tag)
-    try:
-        ge, le, q = _impl(x, v, as_list)
-    except Exception as e:  # the property promises a value for every non-empty sample
-        run.oracle_failure(dict(case, x=[repr(t) for t in x]), f"exception {type(e).__name__}: {e}")
+    fx = [_exact(t) for t in (arr.tolist() if arr is not None and arr.dtype.kind in "iu" else x)]
+    fv = _exact(v)
+    case = dict(x=[str(t) for t in fx] if n <= 12 else f"<{n} values>", v=str(fv), as_list=as_list, tag=tag,
+                xdtype=arr.dtype.name if arr is not None else ("int" if all(isinstance(t, int) for t in x) else "float"),
+                vtype=_vtype(v))
+    full = lambda: dict(case, x=[str(t) for t in fx])
+    aw = awaiting_class(arr if arr is not None else numpy.asarray(x), v)
+    if aw is not None and aw in AWAITING_DECISION:
+        run.count("awaiting:" + aw)
         return
-    fx = [Fraction(t) for t in x]
-    fv = Fraction(v)
+    sig = ("ecdf:" + aw) if aw in KNOWN_FINDING_CLASSES else None
+    if sig:
+        run.count("known-class:" + aw)
+    arg = (list(arr) if as_list else arr) if arr is not None else (list(x) if as_list else numpy.asarray(x))
+    try:
+        ge, le, q, gec, lec = _impl(arg, v)
+    except Exception as e:  # the property promises a value for every non-empty sample
+        run.oracle_failure(full(), f"exception {type(e).__name__}: {e}", signature=sig)
+        return
     kge = sum(1 for t in fx if t >= fv)
     kle = sum(1 for t in fx if t <= fv)
     keq = sum(1 for t in fx if t == fv)
     nontriv = (len(set(fx)) < n) or keq > 0
-    run.case(case, (tuple(fx), fv) if nontriv else None)
+    run.case(case, (case["xdtype"], case["vtype"], tuple(fx), fv) if nontriv else None)
     run.count("query_on_value" if keq else ("below" if kle == 0 else ("above" if kge == 0 else "between")))
-    # direct oracle: exact float k/n
-    if not (ge == kge / n and le == kle / n and q[0] == ge and q[1] == le):
-        run.oracle_failure(dict(case, x=[repr(t) for t in x]),
-                           f"ge={ge!r} le={le!r} quantiles={q!r} expected {kge}/{n} {kle}/{n}")
-    i = drv.ask(f"ge_ecdf {flist(x)} {frac(v)}")
-    j = drv.ask(f"le_ecdf {flist(x)} {frac(v)}")
+    if arr is not None:
+        run.count("dtype:" + arr.dtype.name)
+    # direct oracle: exact float k/n (counts over exact integers / rationals), also through the cdf= path
+    if not (ge == kge / n and le == kle / n and q[0] == ge and q[1] == le and gec == ge and lec == le):
+        run.oracle_failure(full(), f"ge={ge!r} le={le!r} quantiles={q!r} with cdf=: {gec!r} {lec!r}; "
+                                   f"expected {kge}/{n} {kle}/{n}", signature=sig)
+        if sig:
+            return   # known finding: the exact model would only repeat the disagreement
+    i = drv.ask(f"ge_ecdf {flist(Fraction(t) for t in fx)} {frac(Fraction(fv))}")
+    j = drv.ask(f"le_ecdf {flist(Fraction(t) for t in fx)} {frac(Fraction(fv))}")
     pending.append((case, i, j, ge, le, n))
 
 
@@ -115,8 +223,10 @@ def run(run, rng, tier):
               numpy.nextafter(rng.choice(pool), numpy.inf), numpy.nextafter(rng.choice(pool), -numpy.inf)]
         for v in rng.sample(qs, 3):
             _check_case(run, drv, pending, x, float(v) if kind != "int" else v, rng.random() < 0.3, "random-" + kind)
+    _dtype_cases(run, drv, pending, rng, tier)
     _flush(run, drv, pending)
     _binned(run, rng, tier)
+    _binned_dtypes(run, rng, tier)
 
 
 def _binned(run, rng, tier):
@@ -156,8 +266,200 @@ def _binned(run, rng, tier):
             run.mismatch(case, got, out[i])
 
 
+# ----------------------------------------------------------------------------- dtype classes
+UINTS = ["uint8", "uint16", "uint32", "uint64"]
+SINTS = ["int8", "int16", "int32", "int64"]
+FLOATS = ["float16", "float32", "float64"]
+QUERY_TYPES = ["int", "float"] + UINTS + SINTS + FLOATS
+
+
+def _alphabets(dtname):
+    """(name, letters as exact values) for one sample dtype: small counts, the dtype's extremes, and for 64-bit integers
+    neighbours beyond +-2**53 (closer than the float64 spacing); for narrow floats values that float64 queries can
+    straddle"""
+    dt = numpy.dtype(dtname)
+    out = []
+    if dt.kind == "u":
+        out.append(("small", [0, 1, 2, 5]))
+    else:
+        out.append(("small", [0, 1, 2, 5]))
+        out.append(("signed", [-2, -1, 0, 3]))
+    if dt.kind in "iu":
+        ii = numpy.iinfo(dt)
+        out.append(("extremes", [ii.min, ii.min + 1, ii.max - 1, ii.max]))
+        if dt.itemsize == 8:
+            for b in ([2 ** 53, 2 ** 62 + 2 ** 9, ii.max - 3] + ([-2 ** 53 - 2, ii.min + 1] if dt.kind == "i" else [2 ** 63 - 1])):
+                out.append((f"beyond-2^53@{b:+d}", [b - 1, b, b + 1, b + 2]))
+    else:
+        one = dt.type(1)
+        eps = numpy.finfo(dt).eps
+        third = dt.type(1) / dt.type(3)
+        out.append(("fractions", [Fraction(float(third)), Fraction(float(dt.type(0.1))), Fraction(float(one + eps)), Fraction(1)]))
+    return out
+
+
+def _queries_for(letters, dt, rng):
+    """exact query values on, between, just beside, below and above the letters"""
+    lo, hi = min(letters), max(letters)
+    qs = set(letters) | {lo - 1, hi + 1}
+    s = sorted(set(letters))
+    for a, b in zip(s, s[1:]):
+        qs.add((Fraction(a) + Fraction(b)) / 2)
+    if dt.kind == "f":
+        for t in letters:   # float64 neighbours of a narrow float's value: between representable sample values
+            qs.add(Fraction(float(numpy.nextafter(float(t), numpy.inf))))
+            qs.add(Fraction(float(numpy.nextafter(float(t), -numpy.inf))))
+    return sorted(qs)
+
+
+def _typed_queries(val):
+    """every way of handing the exact value `val` to the library: Python int / float and numpy scalars that hold it"""
+    out = []
+    val = Fraction(val)
+    for qt in QUERY_TYPES:
+        try:
+            q = _mk_query(qt, str(val))
+        except (OverflowError, ValueError):
+            continue
+        if not (isinstance(q, float) or (isinstance(q, numpy.floating))) or numpy.isfinite(q):
+            if _exact(q) == val or (val.denominator == 1 and _exact(q) == int(val)):
+                out.append(q)
+    return out
+
+
+def _dtype_cases(run, drv, pending, rng, tier):
+    import itertools as it
+    quick = tier == "quick"
+    n0 = run.evaluations
+    for dtname in UINTS + SINTS + FLOATS:
+        dt = numpy.dtype(dtname)
+        for aname, letters in _alphabets(dtname):
+            queries = _queries_for(letters, dt, rng)
+            typed = {q: _typed_queries(q) for q in queries}
+            for size in (1, 2, 3, 4):
+                multisets = list(it.combinations_with_replacement(letters, size))
+                if quick and len(multisets) > 12:
+                    multisets = rng.sample(multisets, 12)
+                for ms in multisets:
+                    ms = list(ms)
+                    rng.shuffle(ms)
+                    if dt.kind in "iu":
+                        arr = numpy.array([int(t) for t in ms], dtype=dt)
+                    else:
+                        arr = numpy.array([float(t) for t in ms], dtype=dt)
+                    for q in queries:
+                        tq = typed[q]
+                        if not tq:
+                            continue
+                        for v in (rng.sample(tq, min(2, len(tq))) if quick else tq):
+                            _check_case(run, drv, pending, arr, v, rng.random() < 0.25, f"dtype-{aname}")
+    # large random samples with heavy ties held in every dtype, queries as numpy scalars of random dtypes
+    for _ in range(120 if quick else 1500):
+        dtname = rng.choice(UINTS + SINTS + FLOATS)
+        dt = numpy.dtype(dtname)
+        n = rng.choice([5, 50, 500, 3000])
+        if dt.kind in "iu":
+            ii = numpy.iinfo(dt)
+            base = rng.choice([0, ii.min, ii.max - 40, (ii.max // 2)] + ([2 ** 53 - 3, ii.max - 2 ** 53] if dt.itemsize == 8 else []))
+            pool = [min(ii.max, max(ii.min, base + rng.randrange(0, 40))) for _ in range(rng.randint(1, 12))]
+            arr = numpy.array([rng.choice(pool) for _ in range(n)], dtype=dt)
+            cand = [rng.choice(pool), rng.choice(pool) + 1, rng.choice(pool) - 1, min(pool) - 1, max(pool) + 1, min(pool), max(pool)]
+        else:
+            pool = [float(dt.type(rng.uniform(-4, 4))) for _ in range(rng.randint(1, 12))]
+            arr = numpy.array([rng.choice(pool) for _ in range(n)], dtype=dt)
+            p = rng.choice(pool)
+            cand = [Fraction(p), Fraction(float(numpy.nextafter(dt.type(p), dt.type(9)))), Fraction(float(numpy.nextafter(p, 9.0))),
+                    Fraction(float(numpy.nextafter(p, -9.0))), Fraction(min(pool)) - 1, Fraction(max(pool)) + 1]
+        for q in rng.sample(cand, 3):
+            tq = _typed_queries(q)
+            if tq:
+                _check_case(run, drv, pending, arr, rng.choice(tq), rng.random() < 0.1, "random-dtype")
+    run.extra["dtype_cases"] = run.evaluations - n0
+
+
+def _binned_dtypes(run, rng, tier):
+    """binned_ecdf with sample and query arrays of every integer / float dtype"""
+    from csep.utils import stats
+    drv, pend = Driver(), []
+    for _ in range(150 if tier == "quick" else 2000):
+        dx = numpy.dtype(rng.choice(UINTS + SINTS + FLOATS + ["int64", "uint64"]))
+        dq = dx if rng.random() < 0.4 else numpy.dtype(rng.choice(UINTS + SINTS + FLOATS))
+        big = rng.choice([2 ** 53 - 2, 2 ** 62 - 3, 2 ** 63 - 14])     # shared, so that sample and queries interleave
+        def pool_of(dt, k):
+            if dt.kind in "iu":
+                ii = numpy.iinfo(dt)
+                lo = rng.choice([0, ii.min, ii.max - 12] + ([big, big, ii.max - 2 ** 53] if dt.itemsize == 8 else []))
+                return [min(ii.max, max(ii.min, lo + rng.randrange(0, 12))) for _ in range(k)]
+            return [float(dt.type(rng.choice([0.1, 0.3, 1.0, 2.5, 7.0, rng.uniform(0, 12)]))) for _ in range(k)]
+        xs = pool_of(dx, rng.randint(1, 8))
+        x = numpy.array([rng.choice(xs) for _ in range(rng.randint(1, 40))], dtype=dx)
+        fx = [_exact(t) for t in x.tolist()] if dx.kind in "iu" else [_exact(t) for t in x]
+        # query values: sample values the query dtype can hold, and values of its own
+        cand = [t for t in set(fx) if _representable(dq, Fraction(t))] + [Fraction(_exact(t)) for t in
+                numpy.array(pool_of(dq, 3), dtype=dq).tolist()]
+        cand = sorted(set(Fraction(t) for t in cand))
+        if not cand:
+            continue
+        vals = numpy.array([int(t) if dq.kind in "iu" else float(t) for t in cand], dtype=dq)
+        fvals = [_exact(t) for t in (vals.tolist() if dq.kind in "iu" else vals)]
+        if len(set(fvals)) != len(fvals) or sorted(fvals) != fvals:
+            continue
+        aw = [awaiting_class(x, v) for v in vals]
+        if any(a in AWAITING_DECISION for a in aw):
+            run.count("awaiting:binned:" + next(a for a in aw if a))
+            continue
+        bsig = next(("ecdf:" + a for a in aw if a in KNOWN_FINDING_CLASSES), None)
+        n = len(fx)
+        case = dict(x=[str(t) for t in fx], vals=[str(t) for t in fvals], xdtype=dx.name, vdtype=dq.name, tag="binned-dtype")
+        run.case(case, ("binned", dx.name, dq.name, tuple(fx), tuple(fvals)))
+        try:
+            got = stats.binned_ecdf(x, vals)
+        except Exception as e:
+            run.oracle_failure(case, f"exception {type(e).__name__}: {e}", signature=bsig)
+            continue
+        want = [sum(1 for t in fx if t <= v) / n for v in fvals]
+        if got is None or list(got[1]) != want or [_exact(t) for t in got[0]] != fvals:
+            run.oracle_failure(case, f"binned_ecdf={None if got is None else list(got[1])!r} expected {want!r}",
+                               signature=bsig)
+            continue
+        pend.append((case, drv.ask(f"binned_ecdf {flist(Fraction(t) for t in fx)} {flist(Fraction(t) for t in fvals)}"),
+                     list(got[1])))
+    out = drv.run()
+    for case, i, got in pend:
+        try:
+            model = [int(t.split(":")[0]) / int(t.split(":")[1]) for t in out[i].split(",")]
+        except Exception:
+            model = None
+        if model != got:
+            run.mismatch(case, got, out[i])
+
+
 def replay(run, payload):
     case = payload["case"]
+    if case.get("tag") == "binned-dtype":
+        from csep.utils import stats
+        dx, dq = numpy.dtype(case["xdtype"]), numpy.dtype(case["vdtype"])
+        fx, fvals = [Fraction(t) for t in case["x"]], [Fraction(t) for t in case["vals"]]
+        x = numpy.array([int(t) if dx.kind in "iu" else float(t) for t in fx], dtype=dx)
+        vals = numpy.array([int(t) if dq.kind in "iu" else float(t) for t in fvals], dtype=dq)
+        run.case(case, None)
+        got = stats.binned_ecdf(x, vals)
+        want = [sum(1 for t in fx if t <= v) / len(fx) for v in fvals]
+        if got is None or list(got[1]) != want:
+            run.oracle_failure(case, f"binned_ecdf={None if got is None else list(got[1])!r} expected {want!r}")
+        return
+    if "xdtype" in case and isinstance(case.get("x"), list) and case["x"]:
+        fx = [Fraction(t) for t in case["x"]]
+        if case["xdtype"] in ("int", "float"):
+            x = [int(t) if case["xdtype"] == "int" else float(t) for t in fx]
+        else:
+            dx = numpy.dtype(case["xdtype"])
+            x = numpy.array([int(t) if dx.kind in "iu" else float(t) for t in fx], dtype=dx)
+        v = _mk_query(case["vtype"], case["v"])
+        drv, pending = Driver(), []
+        _check_case(run, drv, pending, x, v, case.get("as_list", False), "replay")
+        _flush(run, drv, pending)
+        return
     if case.get("tag") == "binned" or "vals" in case:
         from csep.utils import stats
         x = [float(t) for t in case["x"]]; vals = [float(t) for t in case["vals"]]
